@@ -44,7 +44,7 @@ Theorem C04_lines_at_depth :
   forall b, wf b = true ->
   forall base idx start, Z.of_nat start = (Z.of_nat idx + base + 1)%Z ->
   lines_blk tokenize yaml_load sg first_line base idx b = Ok (lift (locate start b)).
-Proof. exact lines_blk_correct. Qed.
+Proof. exact lines_at_depth. Qed.
 Print Assumptions C04_lines_at_depth.
 
 (* the premise "accepts every text" holds e.g. for every class without arguments whose option tokenizer fails only
@@ -71,6 +71,48 @@ Theorem C04_warning_lines :
   end.
 Proof. exact warning_lines. Qed.
 Print Assumptions C04_warning_lines.
+
+(* Inline level: _render_tokens copies the block token's map to its inline children, so every inline-created node and
+   warning (unknown role, link, image, footnote reference, html_inline ...) carries the FIRST line of its block, not the
+   line it is written on.  Reading used for the property: the "construct that produced it" is the block (markdown-it has
+   no line information for inline tokens), so this is what [locate] expects of inline constructs too. *)
+Theorem C04_inline_lines :
+  forall tokenize yaml_load sg first_line base idx k m more ins,
+  lines_blk tokenize yaml_load sg first_line base idx (Leaf k m more ins) =
+  Ok ((m, (Z.of_nat idx + base + 1)%Z) :: map (fun p => (fst p, (Z.of_nat idx + base + 1)%Z)) ins).
+Proof. exact inline_lines. Qed.
+Print Assumptions C04_inline_lines.
+
+(* Open finding line:include:+1, characterised exactly: for an included file rendered from line index s on, EVERY
+   construct at any depth is reported at its true line in the file + 1 - no other shift. *)
+Theorem C04_include_lines_offset :
+  forall tokenize yaml_load sg first_line,
+  has_option_spec sg = true ->
+  first_line_is_body sg first_line = false ->
+  (forall content line, exists r,
+      parse_directive_text tokenize yaml_load sg first_line content line true None = Ok r) ->
+  forall s body, wf_seq body = true ->
+  include_lines tokenize yaml_load sg first_line s body = Ok (lift (shift1 (locate_seq (s + 1) body))).
+Proof. exact include_lines_offset. Qed.
+Print Assumptions C04_include_lines_offset.
+
+(* Open finding line:dir-firstline-body, characterised exactly: when the text after the directive name is body text,
+   every document is rendered to [locate_seq_gen true] (the children of a directive are placed 2 + blank_before lines
+   after its first line, whatever option block stands in between); for a directive without option block whose body
+   holds no further directive that is the true line + 1 for every construct of the body. *)
+Theorem C04_first_line_body_offset :
+  forall tokenize yaml_load sg first_line,
+  has_option_spec sg = true ->
+  first_line_is_body sg first_line = true ->
+  (forall content line, exists r,
+      parse_directive_text tokenize yaml_load sg first_line content line true None = Ok r) ->
+  (forall doc, wf_seq doc = true ->
+     document_lines tokenize yaml_load sg first_line doc = Ok (lift (locate_seq_gen true 1 doc))) /\
+  (forall start m fk n bb ba bs, dir_free_seq bs = true ->
+     locate_gen true start (Dir m fk NoOpts n bb ba bs) =
+     (m, start) :: shift1 (locate_seq (start + 1 + bb) bs)).
+Proof. exact first_line_body_offset. Qed.
+Print Assumptions C04_first_line_body_offset.
 
 (* Includes: the line counter handed to the nested render is start-line + 1 (+ the number of line breaks skipped by
    start-after).  PARTIAL: this makes lines relative to the included file only up to a constant + 1 - see
@@ -120,11 +162,11 @@ Print Assumptions C04_first_line_body_refuted.
    blank lines before its body and a trailing blank line, inside a quote inside a list item; the premises of C04_lines_nested hold for note_sig/stub_tok ---- *)
 Definition ex_doc : list blk :=
   [ListItem 1 [Quote 2 [Dir 3 ColonFence NoOpts 0 0 0
-                          [Dir 4 ColonFence ColonOpts 1 3 1 [Leaf 5 1; Leaf 6 0]]]];
-   Leaf 7 0].
+                          [Dir 4 ColonFence ColonOpts 1 3 1 [Leaf LPara 5 1 [(8%nat, 1%nat)]; Leaf LTable 6 0 []]]]];
+   Leaf LHeading 7 0 []].
 
 Example C04_example :
   wf_seq ex_doc = true /\
   document_lines stub_tok (fun _ => Y_falsy) note_sig [] ex_doc =
-  Ok [(1%nat, 1%Z); (2%nat, 1%Z); (3%nat, 1%Z); (4%nat, 2%Z); (5%nat, 8%Z); (6%nat, 11%Z); (7%nat, 16%Z)].
+  Ok [(1%nat, 1%Z); (2%nat, 1%Z); (3%nat, 1%Z); (4%nat, 2%Z); (5%nat, 8%Z); (8%nat, 8%Z); (6%nat, 11%Z); (7%nat, 17%Z)].
 Proof. split; vm_compute; reflexivity. Qed.
